@@ -355,8 +355,7 @@ impl<'a> DocGen<'a> {
     }
 }
 
-/// position parameters: unique per RECORD_LAYOUT, so that the documented reordering is
-/// deterministic; in canonical mode the restricted children appear in ascending order
+/// position parameters: mostly unique per RECORD_LAYOUT; in canonical mode the restricted children appear in ascending order
 pub fn fix_record_layout_positions(g: &Grammar, rng: &mut Rng, kids: &mut [Elem], canonical: bool, reserved_ascending: bool) {
     let idxs: Vec<usize> = kids
         .iter()
@@ -367,6 +366,15 @@ pub fn fix_record_layout_positions(g: &Grammar, rng: &mut Rng, kids: &mut [Elem]
     let mut positions: Vec<i128> = (1..=idxs.len() as i128).map(|p| p * 3).collect();
     if !canonical {
         rng.shuffle(&mut positions);
+        // now and then two restricted items carry the same position number (not sensible, but
+        // nothing in the grammar forbids it): the reordering is stable, they keep their relative order
+        if positions.len() >= 2 && rng.chance(1, 5) {
+            let a = rng.below(positions.len());
+            let b = rng.below(positions.len());
+            if a != b {
+                positions[a] = positions[b];
+            }
+        }
         // RESERVED is the only restricted element that can occur several times. Out of position
         // order the reloaded RESERVED list is permuted (known finding of C01, which ends the
         // judgement of that document), so most documents keep the RESERVED items ascending among
